@@ -315,7 +315,8 @@ template <class T, class F> void ReadBatch(const std::string &batch, size_t n, F
 struct CheckF32 {
   Job *j; const std::vector<uint32_t> *bits;
   void operator()(size_t i, bool ok, float v) const {
-    if (!ok || ToBits(v) != (*bits)[i]) {
+    float want = FromBits<float>((*bits)[i]);
+    if (want != want ? !(ok && v != v) : (!ok || ToBits(v) != (*bits)[i])) {
       ++j->mismatches;
       std::ostringstream s; s << "f32 bits=" << (*bits)[i] << (ok ? " read-back=" : " read-error") << (ok ? ToBits(v) : 0u);
       Note(*j, s.str());
@@ -368,7 +369,10 @@ void *RunF32(void *arg) {
       if (v != v) {
         ++j.nan_count;
         if (len != 3 || memcmp(a, "NaN", 3)) { ++j.foreign; Note(j, "NaN text differs"); }
-        continue;                                    // "NaN" followed by another token is a separate observation
+        // "NaN" followed by the next token of the same window must read back as a NaN (payloads are not representable)
+        batch.append((char*)a, len); batch += '\n';
+        bits.push_back((uint32_t)b);
+        continue;
       }
       bool special = std::isinf(v);
       if (special ? (std::string((char*)a, len) != (v < 0 ? "-inf" : "inf")) : !FloatChars((char*)a, len)) {
